@@ -26,7 +26,9 @@ inline fcppt::intrusive::base<Type>::base(list_type &_list)
 
 template <typename Type>
 inline fcppt::intrusive::base<Type>::base(base &&_other) noexcept
-    : prev_{_other.prev_}, next_{_other.next_}
+    // A source that is linked only to itself has no ring to take over.
+    : prev_{_other.prev_ == &_other ? this : _other.prev_},
+      next_{_other.next_ == &_other ? this : _other.next_}
 {
   prev_->next_ = this;
 
@@ -51,9 +53,12 @@ inline fcppt::intrusive::base<Type> &fcppt::intrusive::base<Type>::operator=(bas
 
   prev_->next_ = next_;
 
-  prev_ = _other.prev_;
+  // A source that is linked only to itself has no ring to take over.
+  bool const other_is_single{_other.next_ == &_other};
 
-  next_ = _other.next_;
+  prev_ = other_is_single ? this : _other.prev_;
+
+  next_ = other_is_single ? this : _other.next_;
 
   prev_->next_ = this;
 
